@@ -511,7 +511,83 @@ pub fn run_link_explicit(w: &Value, execs: &[GExec]) -> LinkOut {
             return viol("linked_target_differs_from_resolver", format!("root {}: rendered {:?}, the resolver/linker model says {:?}", p, texts, want), None, stats);
         }
     }
+    // (iv) incremental builds: each file's object is generated right after the file was added,
+    // when its imports may not be in the group yet; the objects are then put together. Linking is
+    // by path at run time, so the result must not depend on what was present at generation time.
+    for reversed in [false, true] {
+        let mut order: Vec<usize> = (0..g.files.len()).collect();
+        if reversed {
+            order.reverse();
+        }
+        let bundle = match incremental_bundle(&g, &order) {
+            Ok(b) => b,
+            Err(e) => {
+                stats.add("discard.incremental_bundle_failed", 1);
+                return LinkOut { outcome: Outcome::Discard(e), stats, exec: None };
+            }
+        };
+        let resp = with_worker(|wk| wk.call(json!({"kind": "link", "bundle": bundle, "roots": roots, "data": {}})));
+        let resp = match resp {
+            Ok(r) if r["status"] == "ok" => r,
+            Ok(r) => {
+                return viol("incremental_objects_do_not_evaluate", format!("objects generated file by file ({} order) do not evaluate: {}", if reversed { "reverse" } else { "world" }, r["reason"].as_str().unwrap_or("")), None, stats);
+            }
+            Err(e) => {
+                stats.add("discard.executor_failure", 1);
+                return LinkOut { outcome: Outcome::Discard(e), stats, exec: None };
+            }
+        };
+        for mr in w["model_render"].as_array().cloned().unwrap_or_default() {
+            let p = mr[0].as_str().unwrap_or("");
+            let want: Vec<String> = mr[1].as_array().map(|a| a.iter().filter_map(|x| x.as_str().map(String::from)).collect()).unwrap_or_default();
+            let got = resp["renders"].as_array().and_then(|a| a.iter().find(|x| x["root"] == p)).cloned().unwrap_or(Value::Null);
+            let texts: Vec<String> = got["texts"].as_array().map(|a| a.iter().filter_map(|x| x.as_str().map(String::from)).collect()).unwrap_or_default();
+            stats.add("probe.incremental_roots_rendered", 1);
+            if got["throws"].is_string() || texts != want {
+                return viol(
+                    "incremental_objects_link_differently",
+                    format!("root {}: objects generated right after each add_tmpl ({} order) render {:?} {}, the resolver/linker model says {:?}", p, if reversed { "reverse" } else { "world" }, texts, got["throws"].as_str().unwrap_or(""), want),
+                    None,
+                    stats,
+                );
+            }
+        }
+    }
     LinkOut { outcome: Outcome::Held, stats, exec: None }
+}
+
+/// The bundle an incremental build would assemble: every file's object as generated right after
+/// that file was added to the group.
+fn incremental_bundle(g: &GroupWorld, order: &[usize]) -> Result<String, String> {
+    let r = std::panic::catch_unwind(std::panic::AssertUnwindSafe(|| {
+        let mut group = glass_easel_template_compiler::TmplGroup::new();
+        for (p, c) in &g.scripts {
+            group.add_script(p, c);
+        }
+        let mut objs: Vec<(String, String)> = vec![];
+        for i in order {
+            let f = &g.files[*i];
+            group.add_tmpl(&f.path, &f.src());
+            let o = group.get_tmpl_gen_object(&f.path).map_err(|e| e.message.clone())?;
+            objs.push((f.path.clone(), o));
+        }
+        let globals = group.export_globals().map_err(|e| e.message.clone())?;
+        let scripts = group.export_all_scripts().map_err(|e| e.message.clone())?;
+        let mut s = String::from("(()=>{var G={};var R={};");
+        s.push_str(&globals);
+        s.push(';');
+        s.push_str(&scripts);
+        s.push(';');
+        for (p, o) in objs {
+            s.push_str(&format!("G[{}]={};", serde_json::to_string(&p).unwrap(), o));
+        }
+        s.push_str("return G})()");
+        Ok::<String, String>(s)
+    }));
+    match r {
+        Ok(x) => x,
+        Err(_) => Err("compiler panicked".into()),
+    }
 }
 
 fn link_execs(seed: u64, g: &GroupWorld, m: usize) -> Vec<GExec> {
